@@ -394,11 +394,29 @@ def _order(rng, sc, tg, order):
         idx.sort(key=lambda j: sc[j])
     elif order == "targets-first":
         idx.sort(key=lambda j: -tg[j])
+    elif order == "targets-desc-then-decoys-desc":      # each class best first, but not globally sorted
+        idx.sort(key=lambda j: (-tg[j], -sc[j]))
+    elif order == "decoys-desc-then-targets-desc":
+        idx.sort(key=lambda j: (tg[j], -sc[j]))
+    elif order == "class-sorted-interleaved":           # the targets and the decoys are each in descending order
+        t = sorted((j for j in idx if tg[j]), key=lambda j: -sc[j])
+        d = sorted((j for j in idx if not tg[j]), key=lambda j: -sc[j])
+        idx = []
+        while t or d:
+            src = t if (t and (not d or rng.random() < 0.5)) else d
+            idx.append(src.pop(0))
+    elif order == "desc-one-swap":                      # descending except for one exchanged pair
+        idx.sort(key=lambda j: -sc[j])
+        if len(idx) > 3:
+            a = rng.randrange(len(idx) - 1)
+            b = rng.randrange(len(idx))
+            idx[a], idx[b] = idx[b], idx[a]
     return [sc[j] for j in idx], [tg[j] for j in idx]
 
 
 SHAPES = ("mix", "separated", "weak", "rounded", "integer", "levels", "half-ties")
-ORDERS = ("shuffled", "desc", "asc", "targets-first")
+ORDERS = ("shuffled", "desc", "asc", "targets-first", "targets-desc-then-decoys-desc", "decoys-desc-then-targets-desc",
+          "class-sorted-interleaved", "desc-one-swap")
 
 
 def weak_orderings(n):
